@@ -476,7 +476,7 @@ func ruleFootnoteNumbering(w *World, r *Report) {
 		for _, b := range f.Blocks {
 			for _, ins := range b.Instrs {
 				if c, ok := ins.(*ssa.Call); ok {
-					if nt := namedOf(c.Type()); nt != nil && nt.Obj() == backT.Obj() && c.Common().StaticCallee() != nil {
+					if nt := namedOf(c.Type()); nt != nil && nt.Obj() == backT.Obj() && c.Common().StaticCallee() != nil && isCtor(c.Common().StaticCallee()) {
 						ctorIn[f] = append(ctorIn[f], c)
 					}
 				}
